@@ -24,8 +24,9 @@ TYPED_ATOMS = {
     "float": [0.0, 0.1, 1.0 / 3, -1e-7, 1e22],
     "boolean": [True, False],
     "date": [{"date": "2020-01-02"}, {"date": "1999-12-31"}],
-    "time": [{"time": "01:02:03"}, {"time": "23:59:59"}],
-    "datetime": [{"datetime": "2020-01-02 03:04:05"}, {"datetime": "1999-12-31 23:59:59"}],
+    "time": [{"time": "01:02:03"}, {"time": "23:59:59"}, {"time_tz": "09:30:15"}],
+    "datetime": [{"datetime": "2020-01-02 03:04:05"}, {"datetime": "1999-12-31 23:59:59"},
+                 {"datetime_tz": "2020-05-17 09:30:15"}],       # timezone-aware native objects (datetime.now(timezone.utc))
     "2-tuple": [["1", "2"], ["a", "b c"]],
     "3-tuple": [["1", "2", "3"], ["x", "y", "z"]],
 }
@@ -42,6 +43,10 @@ def dec(v):
             return dt.datetime.strptime(v["datetime"], "%Y-%m-%d %H:%M:%S")
         if "tuple" in v:
             return tuple(v["tuple"])
+        if "datetime_tz" in v:
+            return dt.datetime.strptime(v["datetime_tz"], "%Y-%m-%d %H:%M:%S").replace(tzinfo=dt.timezone.utc)
+        if "time_tz" in v:
+            return dt.datetime.strptime(v["time_tz"], "%H:%M:%S").time().replace(tzinfo=dt.timezone.utc)
     return v
 
 
